@@ -54,6 +54,7 @@ ASSUMPTIONS = [
     "raw_contrast is only judged when every (p, contrasted level) holds at most one evaluation and x is 'index' or an id column (the code documents that it assumes this)",
     "where_best is always given p explicitly (p=None is documented as defaulting to full_p but is outside this property's statement)",
     "NaN rewards (learners sub-check only) must propagate into every progressive / final average whose window holds them; they are not combined with a trailing window (1 < span) over x='index', where the running-sum implementation stays NaN after the value has left the window, nor with where_best (ranking NaN means is undefined); +-inf rewards are not generated",
+    "evaluations longer than 1024 interactions (1 case in 40, lengths 1025..2100, thorough ..3000, never a multiple of 512) are only combined with x = parameter / id columns (final averages); their rewards come from a compact generator stored in the case",
     "moving_average: span is None or an int >= 1, explicit weights are positive (0.1..10), 'exp' needs an int span; values within +-100",
 ]
 
@@ -62,6 +63,18 @@ ID_COLS = ("environment_id", "learner_id", "evaluator_id")
 ENV_PCOLS = ("data", "seed")
 LRN_PCOLS = ("family", "lr")
 VAL_PCOLS = ("etype",)
+# alternative spellings of the parameter column names: a name that merely *contains* 'index' is an ordinary parameter
+ENV_NAMES = (("data", "index_seed", "data", "my index"), ("seed", "seed", "reindex"))
+LRN_NAMES = (("family",), ("lr", "lr", "lr_index"))          # 'family' is kept: it is part of a learner's full_name
+VAL_NAMES = (("etype", "etype", "eval index"),)
+
+def expand_ys(ys):
+    """rewards of one evaluation: a plain list, or {"gen": [N, a, b, m]} for a long generated sequence (kept compact
+    in the case; non-constant, exactly representable multiples of 1/8)"""
+    if isinstance(ys, dict):
+        n, a, b, m = ys["gen"]
+        return [((a * i + b * ((i * i) % m)) % 64) / 8 for i in range(1, n + 1)]
+    return ys
 POOL = [0, 1, 2, 3, "a", "b", "c", (1, 2), ("a", 1), 0.5, None]
 
 def close(a, b):
@@ -106,6 +119,7 @@ def model_of_case(case):
     val = {i: dict(zip(case["val_cols"], r)) for i, r in zip(case["val_ids"], case["val_rows"])}
     evals = {}
     for ei, li, vi, ys in case["evals"]:
+        ys = expand_ys(ys)
         t = (case["env_ids"][ei], case["lrn_ids"][li], case["val_ids"][vi])
         if ys:
             evals[t] = [{"index": k + 1, "reward": nan1(y), "tag": f"{t[0]}.{t[1]}.{t[2]}.{k + 1}"} for k, y in enumerate(ys)]
@@ -245,6 +259,7 @@ def build(case):
         for i, r in zip(case["val_ids"], case["val_rows"]): trx.append(["V", i, {k: v for k, v in zip(case["val_cols"], r) if not (case.get("sparse") and v is None)}])
         recs = []
         for ei, li, vi, ys in case["evals"]:
+            ys = expand_ys(ys)
             t = [case["env_ids"][ei], case["lrn_ids"][li], case["val_ids"][vi]]
             # an evaluation without interactions is written as {"_packed": {}} by TransactionEncode
             packed = {"reward": list(ys), "tag": [f"{t[0]}.{t[1]}.{t[2]}.{k + 1}" for k in range(len(ys))]} if ys else {}
@@ -312,9 +327,10 @@ def draw_result(draw, tier, min_rows=1, best=False):
     nE, nL = draw(st.sampled_from([2, 3, 1, 4, 2, 3])), draw(st.sampled_from([2, 3, 1, 4, 2]))
     nV = draw(st.sampled_from([1, 1, 1, 2]))
     if best: nE, nL, nV = draw(st.sampled_from([2, 3, 4])), draw(st.sampled_from([3, 2, 4])), (2 if best == "val" else 1)
-    env_ids, env_cols, env_rows = param_table(draw, nE, ENV_PCOLS, bool(best))
-    lrn_ids, lrn_cols, lrn_rows = param_table(draw, nL, LRN_PCOLS, bool(best))
-    val_ids, val_cols, val_rows = param_table(draw, nV, VAL_PCOLS, best == "val")
+    names = lambda pools: tuple(draw(st.sampled_from(pool)) for pool in pools)
+    env_ids, env_cols, env_rows = param_table(draw, nE, names(ENV_NAMES), bool(best))
+    lrn_ids, lrn_cols, lrn_rows = param_table(draw, nL, names(LRN_NAMES), bool(best))
+    val_ids, val_cols, val_rows = param_table(draw, nV, names(VAL_NAMES), best == "val")
     present = draw(st.sampled_from([90, 100, 100, 80, 60])) if not best else draw(st.sampled_from([100, 100, 95]))
     mode = draw(st.sampled_from(["mostly", "equal", "mostly", "ragged"]))
     base = draw(st.integers(1, 8))
@@ -783,8 +799,40 @@ def run_contrast(res, cur, q, _):
         require(len(a) == len(b) and all(close(u[0], v[0]) and close(u[1], v[1]) for u, v in zip(a, b)),
                 f"{what}: pairs at x={xv!r} differ from the naive computation", got=a, want=b)
 
+def draw_long_case(draw, tier):
+    """a small complete Result in which some evaluations have 1025..3000 interactions (never a multiple of 512): the final
+    averages then run over more than a thousand values; x is a parameter / id column so that the cost stays linear"""
+    nE, nL = draw(st.sampled_from([2, 1, 3])), draw(st.sampled_from([2, 1]))
+    names = lambda pools: tuple(draw(st.sampled_from(pool)) for pool in pools)
+    env_ids, env_cols, env_rows = param_table(draw, nE, names(ENV_NAMES), False)
+    lrn_ids, lrn_cols, lrn_rows = param_table(draw, nL, names(LRN_NAMES), False)
+    evals, any_long = [], False
+    for ei in range(nE):
+        for li in range(nL):
+            if chance(draw, 1, 2) or (not any_long and ei == nE - 1 and li == nL - 1):
+                n = draw(st.integers(1025, 3000 if tier == "thorough" else 2100))
+                if n % 512 == 0: n += 1
+                any_long = True
+            else:
+                n = draw(st.sampled_from(range(1, 41)))
+            evals.append([ei, li, 0, {"gen": [n, draw(st.sampled_from(range(1, 8))), draw(st.sampled_from(range(6))), draw(st.sampled_from([7, 13, 31]))]}])
+    case = {"env_ids": env_ids, "env_cols": env_cols, "env_rows": env_rows, "lrn_ids": lrn_ids, "lrn_cols": lrn_cols, "lrn_rows": lrn_rows,
+            "val_ids": [draw(st.sampled_from(range(10)))], "val_cols": [], "val_rows": [[]], "evals": evals,
+            "build": draw(st.sampled_from(["rows", "trx"])), "long": True}
+    if case["build"] == "trx": case["sparse"] = False
+    l = draw(st.sampled_from(["learner_id", "full_name", ["learner_id"]]))
+    p = draw(st.sampled_from(["environment_id", "environment_id", ["environment_id"], None]))
+    cands = ["environment_id", *env_cols, "learner_id", *lrn_cols]
+    x = draw(st.sampled_from(cands)) if chance(draw, 2, 3) else list(draw(st.permutations(cands)))[:draw(st.sampled_from([1, 2]))]
+    case["q"] = {"l": l, "p": p, "x": x, "span": draw(st.sampled_from([None, None, 1100, 1, 1500, 5000, 2]))}
+    if p is not None and chance(draw, 1, 3):
+        case["q"]["pre"] = [["fin", None, l, p]]
+    return case
+
 @st.composite
 def learner_cases(draw, tier):
+    if chance(draw, 1, 40 if tier == "quick" else 60):
+        return draw_long_case(draw, tier)
     case = draw_result(draw, tier)
     l, p = draw_lp(draw, case, allow_none=False)
     if chance(draw, 1, 5): l = "full_name"
@@ -832,7 +880,7 @@ def learner_cases(draw, tier):
     return case
 
 def has_nan(case):
-    return any(isinstance(y, float) and y != y for e in case["evals"] for y in e[3])
+    return any(isinstance(y, float) and y != y for e in case["evals"] if not isinstance(e[3], dict) for y in e[3])
 
 def learners_profile(case):
     m = model_of_case(case)
@@ -874,6 +922,12 @@ def learners_classes(case):
         out.append("after-where_fin(None,same l,same p)" if same else "after-where_fin(other)")
         if same and f["ragged"] and q["x"] == "index" and f["keep"]: out.append("same-lp-where_fin-then-index-on-ragged")
     if "best" in kinds: out.append("after-where_best")
+    if case.get("long"):
+        out.append("evaluation-longer-than-1024")
+        if q["span"] is None or q["span"] > 1024: out.append("average-over-more-than-1024-values")
+    xcols = spec_cols(q["x"])
+    if any("index" in c and c != "index" for c in xcols):
+        out.append("x-names-a-parameter-containing-'index'" + ("(string)" if isinstance(q["x"], str) else "(list)"))
     if has_nan(case):
         out.append("nan-rewards")
         if q["x"] != "index" and q["span"] != 1: out.append("nan-rewards-final-average")
